@@ -36,7 +36,7 @@ func c13Exec(c histCase, x *pbt.Ctx) error {
 	if err != nil {
 		return fmt.Errorf("HARNESS: cannot start node: %v", err)
 	}
-	defer n.Stop()
+	defer n.Close()
 	order := ck.ApplyOrder(c.Order, nb)
 	nBad, badOnWinningFork := 0, false
 	for i := 1; i <= nb; i++ {
